@@ -30,6 +30,19 @@ func checkPrefix[T constraints.Unsigned](n int) error {
 	return nil
 }
 
+// boundedCap limits a capacity claimed on the wire to what the unread input
+// could possibly hold, so that a hostile count cannot make a reader reserve
+// memory for data that is not in the buffer.
+func boundedCap(count int, buf *bytes.Buffer) int {
+	if count < 0 {
+		return 0
+	}
+	if count > buf.Len() {
+		return buf.Len()
+	}
+	return count
+}
+
 func WriteBasicType[T BasicType](buf *bytes.Buffer, v T) error {
 	return binary.Write(buf, binary.BigEndian, &v)
 }
@@ -89,7 +102,7 @@ func ReadBasicTypeList[T constraints.Unsigned, K BasicType](buf *bytes.Buffer) (
 	}
 	count := int(t)
 
-	result := make([]K, 0, count)
+	result := make([]K, 0, boundedCap(count, buf))
 	var err error
 	for i := 0; i < count; i++ {
 		v, e := ReadBasicType[K](buf)
@@ -108,7 +121,7 @@ func ReadBasicTypeListLE[T constraints.Unsigned, K BasicType](buf *bytes.Buffer)
 	}
 	count := int(t)
 
-	result := make([]K, 0, count)
+	result := make([]K, 0, boundedCap(count, buf))
 	var err error
 	for i := 0; i < count; i++ {
 		v, e := ReadBasicTypeLE[K](buf)
@@ -156,6 +169,9 @@ func ReadString[T constraints.Unsigned](buf *bytes.Buffer) (string, error) {
 		return "", err
 	}
 	length := int(t)
+	if length < 0 || length > buf.Len() {
+		return "", io.ErrUnexpectedEOF
+	}
 
 	strBytes := make([]byte, length)
 	_, err := io.ReadFull(buf, strBytes)
@@ -168,6 +184,9 @@ func ReadStringLE[T constraints.Unsigned](buf *bytes.Buffer) (string, error) {
 		return "", err
 	}
 	length := int(t)
+	if length < 0 || length > buf.Len() {
+		return "", io.ErrUnexpectedEOF
+	}
 
 	strBytes := make([]byte, length)
 	_, err := io.ReadFull(buf, strBytes)
@@ -275,7 +294,7 @@ func ReadFixedStringListTrimPadding[T constraints.Unsigned](buf *bytes.Buffer, f
 	}
 	count := int(t)
 
-	result := make([]string, 0, count)
+	result := make([]string, 0, boundedCap(count, buf))
 	var err error
 	for i := 0; i < count; i++ {
 		str, e := ReadFixedStringTrimPadding(buf, fixedLen, padChar, padLeft)
@@ -298,7 +317,7 @@ func ReadFixedStringListTrimPaddingLE[T constraints.Unsigned](buf *bytes.Buffer,
 	}
 	count := int(t)
 
-	result := make([]string, 0, count)
+	result := make([]string, 0, boundedCap(count, buf))
 	var err error
 	for i := 0; i < count; i++ {
 		str, e := ReadFixedStringTrimPadding(buf, fixedLen, padChar, padLeft)
@@ -367,13 +386,16 @@ func ReadStringListLE[T constraints.Unsigned, K constraints.Unsigned](buf *bytes
 	}
 	count := int(t)
 
-	result := make([]string, 0, count)
+	result := make([]string, 0, boundedCap(count, buf))
 	for i := 0; i < count; i++ {
 		var k K
 		if err := binary.Read(buf, binary.LittleEndian, &k); err != nil {
 			return nil, err
 		}
 		length := int(k)
+		if length < 0 || length > buf.Len() {
+			return nil, errors.New("incomplete string bytes")
+		}
 
 		strBytes := make([]byte, length)
 		n, err := buf.Read(strBytes)
@@ -393,13 +415,16 @@ func ReadStringList[T constraints.Unsigned, K constraints.Unsigned](buf *bytes.B
 	}
 	count := int(t)
 
-	result := make([]string, 0, count)
+	result := make([]string, 0, boundedCap(count, buf))
 	for i := 0; i < count; i++ {
 		var k K
 		if err := binary.Read(buf, binary.BigEndian, &k); err != nil {
 			return nil, err
 		}
 		length := int(k)
+		if length < 0 || length > buf.Len() {
+			return nil, errors.New("incomplete string bytes")
+		}
 
 		strBytes := make([]byte, length)
 		n, err := buf.Read(strBytes)
@@ -438,7 +463,7 @@ func ReadObjectList[T constraints.Unsigned, K BinaryCodec](buf *bytes.Buffer, ne
 	}
 	count := int(t)
 
-	result := make([]K, 0, count)
+	result := make([]K, 0, boundedCap(count, buf))
 	for i := 0; i < count; i++ {
 		k := newFn()
 		if e := k.Decode(buf); e != nil {
@@ -475,7 +500,7 @@ func ReadObjectListLE[T constraints.Unsigned, K BinaryCodec](buf *bytes.Buffer, 
 	}
 	count := int(t)
 
-	result := make([]K, 0, count)
+	result := make([]K, 0, boundedCap(count, buf))
 	for i := 0; i < count; i++ {
 		k := newFn()
 		if e := k.Decode(buf); e != nil {
